@@ -6,6 +6,11 @@ ALL = ["C%02d" % i for i in range(1, 21)]
 
 # property -> dict(level, text, note, technique, engine, design_ref)
 CLAIMED = {
+  "C14": dict(level="exploration", engine="E1",
+    text="Bounded-exhaustive exploration: every source of <= 3 (thorough <= 4) lines over a 36-letter line alphabet (blank / r1 finding / r2 finding / both nested / both sequential / non-matching statement x no comment or `ast-grep-ignore` with id list none, r1, r2, `r1, r2`, r3; own-line or trailing) in JavaScript, Python and Html, x rule sets {r1},{r2},{r1,r2} x separate_fix in {false,true}, plus id-list spelling variants and an indented-block variant; the real CombinedScan::scan (rules via from_yaml_string, unused-suppression enabled) is compared per rule id and per unused comment with the reference set comprehension ref_suppress computed from the planted layout. Quick 455 760 cases / 911 520 scans, thorough 16.4e6 cases.",
+    note="Comments are generated, single-line and well-formed; trailing comments follow single-line statements; findings never span lines; container (matches vs diffs) and order are not judged; the CLI layer and other comment syntaxes (CSS) are not covered.",
+    technique="bounded-exhaustive enumeration of source layouts against a reference set comprehension",
+    design_ref="DESIGN.md §3 C14, Appendix A.3"),
   "C08": dict(level="exploration", engine="E1-CLI+E3",
     text="Bounded-exhaustive cross product of a fixed rule pool (string and object-form fixes; expandStart / expandEnd / both / stopBy variants; pattern, kind, any, relational matchers; 16 JavaScript rules, thorough +6 JS, 5 Python, 5 Rust) with every sequence of <= 3 (thorough <= 4) statements from a 7 (8) statement alphabet; each (rule, source) is observed through scan --json, scan -U, `sg test -U` snapshots, the library (make_edit, Node::replace, replace_all, AstGrep::replace) and the real language server (diagnostics, quick-fix, fix-all via the E3 executor) and judged for identical (byte range, replacement); quick 6 384 cases / 57 456 front-end comparisons, thorough 103 800 / 934 200.",
     note="Agreement oracle plus one anchor (for expansions the announced range is also compared with a range computed from hand-written token trees, so a bug shared by all front ends is not invisible); trimming of trailing punctuation cannot occur through rule matchers and is exercised only as agreement; `ast-grep run` is observed and counted, not judged; -U is judged only when announced edits are disjoint (C18 covers overlaps).",
